@@ -125,6 +125,15 @@ def end_to_end(scope, na, nb):
     elif scope == "cell":
         work.create_definition(name=na)
         work.create_definition(name=nb)
+    elif scope == "instance-readded-under-edif":
+        # an EDIF-policy netlist (what the EDIF reader returns): an instance carrying an identifier is removed
+        # and a new one with the same name is created - the writer has to give it an identifier again
+        n[".NS"] = "EDIF"
+        old = top.create_child(name=na, reference=leaf)
+        old["EDIF.identifier"] = "".join(ch if ch.isalnum() else "_" for ch in na)   # as the reader sets it
+        top.remove_child(old)
+        top.create_child(name=na, reference=leaf)
+        top.create_child(name=nb, reference=leaf)
     elif scope == "cell-first-library":
         # the colliding cells live in a library that is not the last one written
         prim.create_definition(name=na)
@@ -239,6 +248,8 @@ def cases(tier):
         out.append(("e2e", "net-cross-scope", na, nb, "asc"))
     for na, nb in (("D", "d"), ("d", "D"), ("aB", "Ab"), ("a-b", "a_b"), ("a_b", "a-b"), ("x/y", "x_y"), ("A" * 256, "a" * 256)):
         out.append(("e2e", "cell-first-library", na, nb, "asc"))
+    for na, nb in (("U_Buf1", "Clk"), ("Net_A", "net_a2"), ("a-b", "A-B2")):
+        out.append(("e2e", "instance-readded-under-edif", na, nb, "asc"))
     for nm in e2e_names:
         out.append(("e2e", "top-instance", nm, "b", "asc"))
         out.append(("e2e", "netlist", nm, "b", "asc"))
@@ -252,7 +263,7 @@ def run(tier, seed):
         "pre-existing x_sdn_N_ names in every processing order and on length-boundary families; every scope is "
         "additionally exercised end to end (compose + parse); transitions = sibling sets evaluated")
     found = {}
-    deadline = time.time() + (200 if tier == "quick" else 3000)
+    deadline = time.time() + (900 if tier == "quick" else 6000)
     cs = cases(tier)
     k = seed % 7
     engine_b.run_cases(ID, cs[k:] + cs[:k], cov, found, deadline, level="names/" + tier)
